@@ -48,7 +48,7 @@ macro_rules! history_harnesses {
             /// push(text): equals the reference (dedupe, minimal eviction, rejects); invariant kept.
             #[kani::proof]
             #[kani::unwind($U)]
-            fn push_step() {
+            pub fn push_step() {
                 let s = any_state();
                 let tbuf: [u8; H + 1] = kani::any();
                 let tl: usize = kani::any();
@@ -80,7 +80,7 @@ macro_rules! history_harnesses {
             /// next_older / next_newer: result and new position equal the reference.
             #[kani::proof]
             #[kani::unwind($U)]
-            fn navigate_step() {
+            pub fn navigate_step() {
                 let s = any_state();
                 let up: bool = kani::any();
                 let pre = mh::Hist::<H> { buf: s.buf, used: s.used };
@@ -113,7 +113,7 @@ macro_rules! history_harnesses {
             /// Base case.
             #[kani::proof]
             #[kani::unwind($U)]
-            fn base() {
+            pub fn base() {
                 let buf: [u8; H] = kani::any();
                 let h = History::new(buf);
                 let (nb, nc, nu) = h.__verif_parts();
